@@ -41,6 +41,7 @@ type Case struct {
 	ParkSerial   bool   `json:",omitempty"` // ... and the others are served one after the other
 	MaxBytes     uint
 	StoreHeaders bool
+	Upstream     bool `json:",omitempty"`
 	CacheControl bool
 	Methods      []string `json:",omitempty"`
 	CustomKey    bool
@@ -59,10 +60,11 @@ type origin struct {
 	ctype  string
 	enc    string
 	xh     string
+	up     string // what a middleware in front of the cache had put on the response (part of the stored headers)
 }
 
 func (o *origin) sig(withHdr bool) string {
-	s := fmt.Sprintf("%d|%s|%s|%s", o.status, o.body, o.ctype, o.enc)
+	s := fmt.Sprintf("%d|%s|%s|%s|%s", o.status, o.body, o.ctype, o.enc, o.up)
 	if withHdr {
 		s += "|" + o.xh + "|<" + o.xh + "/a>; rel=\"next\",<" + o.xh + "/b>; rel=\"last\""
 	}
@@ -70,7 +72,11 @@ func (o *origin) sig(withHdr bool) string {
 }
 
 func respSig(r *fasthttp.RequestCtx, withHdr bool) string {
-	s := fmt.Sprintf("%d|%s|%s|%s", r.Response.StatusCode(), r.Response.Body(), r.Response.Header.ContentType(), r.Response.Header.Peek("Content-Encoding"))
+	var ups []string
+	for _, v := range r.Response.Header.PeekAll("X-Frame-Options") {
+		ups = append(ups, string(v))
+	}
+	s := fmt.Sprintf("%d|%s|%s|%s|%s", r.Response.StatusCode(), r.Response.Body(), r.Response.Header.ContentType(), r.Response.Header.Peek("Content-Encoding"), strings.Join(ups, ","))
 	if withHdr {
 		var links []string
 		for _, v := range r.Response.Header.PeekAll("Link") {
@@ -143,6 +149,10 @@ func newWorld(c Case) *world {
 		cfg.Storage = w.st
 	}
 	w.app = fiber.New()
+	if c.Upstream {
+		// a middleware in front of the cache that sets a response header on every request (helmet, cors, ...)
+		w.app.Use(func(ctx fiber.Ctx) error { ctx.Set("X-Frame-Options", "SAMEORIGIN"); return ctx.Next() })
+	}
 	w.app.Use(cache.New(cfg))
 	w.app.All("/*", func(ctx fiber.Ctx) error {
 		w.sched.Yield("origin<")
@@ -158,6 +168,7 @@ func newWorld(c Case) *world {
 		o.ctype = []string{"text/plain", "application/json", "text/html; charset=utf-8"}[s%3]
 		o.enc = []string{"", "", "gzip"}[s%3]
 		o.xh = fmt.Sprintf("h%d", s)
+		o.up = ctx.GetRespHeader("X-Frame-Options")
 		u := string(ctx.Request().RequestURI()) + " " + ctx.Method()
 		w.execs[u] = append(w.execs[u], o)
 		w.mu.Unlock()
@@ -543,7 +554,7 @@ func genPicks(t *rapid.T, maxIdx int) []int {
 
 func genCase(t *rapid.T, conc bool) Case {
 	c := Case{Store: rapid.SampledFrom([]string{"memory", "vk", "vk-retain"}).Draw(t, "store"), MaxBytes: rapid.SampledFrom([]uint{0, 50, 100, 200, 400}).Draw(t, "maxbytes"),
-		StoreHeaders: rapid.Bool().Draw(t, "storehdr"), CacheControl: rapid.Bool().Draw(t, "cachecontrol"), CustomKey: rapid.Bool().Draw(t, "customkey"),
+		StoreHeaders: rapid.Bool().Draw(t, "storehdr"), Upstream: rapid.Bool().Draw(t, "upstream"), CacheControl: rapid.Bool().Draw(t, "cachecontrol"), CustomKey: rapid.Bool().Draw(t, "customkey"),
 		UseNext: rapid.IntRange(0, 4).Draw(t, "usenext") == 0, Conn: rapid.IntRange(0, 2).Draw(t, "conn") == 0}
 	switch rapid.IntRange(0, 3).Draw(t, "methods") {
 	case 0:
